@@ -17,8 +17,8 @@
  *   O k w h ncomp ctype n b..         old-style raster: DFR8addimage (ncomp 1; ctype 1 = RLE) / DF24addimage -> O ok|fail
  *   U n b..                           DFCIrle + DFCIunrle on one row               -> U ok decoded.. | encoded..
  *   E                                 GRendaccess*, GRend, Hclose, Hopen, GRstart, GRselect by name -> E ok|fail
- *   X k oa ob n b..                   GRwritechunk                                 -> X ok|fail
- *   Y k oa ob n                       GRreadchunk (n = bytes expected)             -> Y ok b..|fail
+ *   X k c0 c1 o0 o1 n b..             GRwritechunk of chunk (o0,o1); c0,c1 = chunk lengths -> X ok|fail
+ *   Y k c0 c1 o0 o1 n                 GRreadchunk (n = bytes expected)             -> Y ok b..|fail
  *   D k                               raw image element bytes (Hgetelement)        -> D ok len b..|none
  *   V inil outil X Y nc nt n b..      direct call of GRIil_convert                 -> V ok b..|fail
  * "trace" = the Hseek/Hwrite/Hread calls GRwriteimage/GRreadimage issue on the image element
@@ -383,31 +383,31 @@ int main(int argc, char **argv)
                 free(b); free(e); free(o);
                 break;
             }
-            case 'X': {
+            case 'X': { /* X k c0 c1 o0 o1 n b.. (c0, c1: chunk lengths, known to the generator; not used here) */
                 unsigned char *b;
                 int32 org[2];
                 intn  rc = FAIL;
-                for (i = 0; i < 4; i++) if (fscanf(f, "%ld", &a[i]) != 1) return 3;
-                b = read_bytes(f, a[3]);
+                for (i = 0; i < 6; i++) if (fscanf(f, "%ld", &a[i]) != 1) return 3;
+                b = read_bytes(f, a[5]);
                 k = (int)a[0];
-                org[0] = (int32)a[1]; org[1] = (int32)a[2];
-                if (okslot(k)) rc = GRwritechunk(riid[k], org, b);
+                org[0] = (int32)a[3]; org[1] = (int32)a[4];
+                if (okslot(k) && pix_mem_size(k) > 0 && pix_mem_size(k) * a[1] * a[2] == a[5]) rc = GRwritechunk(riid[k], org, b);
                 printf("X %s\n", rc == FAIL ? "fail" : "ok");
                 free(b);
                 break;
             }
-            case 'Y': {
+            case 'Y': { /* Y k c0 c1 o0 o1 n */
                 unsigned char *b;
                 int32 org[2];
                 intn  rc = FAIL;
-                for (i = 0; i < 4; i++) if (fscanf(f, "%ld", &a[i]) != 1) return 3;
+                for (i = 0; i < 6; i++) if (fscanf(f, "%ld", &a[i]) != 1) return 3;
                 k = (int)a[0];
-                org[0] = (int32)a[1]; org[1] = (int32)a[2];
-                b = (unsigned char *)malloc(a[3] > 0 ? (size_t)a[3] : 1);
-                memset(b, 0xAA, a[3] > 0 ? (size_t)a[3] : 1);
-                if (okslot(k)) rc = GRreadchunk(riid[k], org, b);
+                org[0] = (int32)a[3]; org[1] = (int32)a[4];
+                b = (unsigned char *)malloc(a[5] > 0 ? (size_t)a[5] : 1);
+                memset(b, 0xAA, a[5] > 0 ? (size_t)a[5] : 1);
+                if (okslot(k) && pix_mem_size(k) > 0 && pix_mem_size(k) * a[1] * a[2] == a[5]) rc = GRreadchunk(riid[k], org, b);
                 if (rc == FAIL) printf("Y fail\n");
-                else { printf("Y ok"); print_bytes(b, a[3]); printf("\n"); }
+                else { printf("Y ok"); print_bytes(b, a[5]); printf("\n"); }
                 free(b);
                 break;
             }
